@@ -95,14 +95,14 @@ type child struct {
 }
 
 type world struct {
-	run      *lib.Run
-	hb       *lib.Heartbeat
-	origin   *lib.Origin // plain fault origin
-	torigin  *lib.Origin // TLS fault origin
-	plainTLSAddr string // garbage / plain HTTP speakers on the "https" port
-	up       *lib.Origin // faulty upstream proxy
-	ca       *lib.CA
-	deadAddr string
+	run          *lib.Run
+	hb           *lib.Heartbeat
+	origin       *lib.Origin // plain fault origin
+	torigin      *lib.Origin // TLS fault origin
+	plainTLSAddr string      // garbage / plain HTTP speakers on the "https" port
+	up           *lib.Origin // faulty upstream proxy
+	ca           *lib.CA
+	deadAddr     string
 }
 
 func (w *world) upstreamHandler(oc *lib.OConn, req *lib.Msg) lib.Action {
